@@ -14,6 +14,7 @@ From ClapModel Require Import Base.Bytes Base.Machine Base.Utf8.
 From ClapModel Require Import Parse.Cmd Parse.Build Parse.Valid Parse.Matcher Parse.Errors Parse.Validator Parse.Parser.
 From ClapModel Require Import Reentrancy.ReentrancyModel Reentrancy.ReentrancyProofs Reentrancy.ReentrancyParse.
 From ClapModel Require Import Reentrancy.ReentrancyDym.
+From ClapModel Require Help.UsageModel.
 From Coq Require Import ZArith List Bool.
 From RecordUpdate Require Import RecordSet.
 Import RecordSetNotations ListNotations.
@@ -107,4 +108,166 @@ Example ex_history_messages_hyps :
   good_name ex_prog = true /\ xhist_ok ex_prog ex_gcmd ex_xhist = true
   /\ argv_under ex_prog (xrun ex_gcmd ex_xhist) [ex_prog; w_version] = true
   /\ argv_under ex_prog ex_gcmd [ex_prog; w_version] = true.
+Proof. vm_compute. repeat split; reflexivity. Qed.
+
+(** * fourth pass (3): the [mid] part of [usage_name] -- the required-arguments text that [_build_subcommand]
+    (and [_build_bin_names_internal]) put between the parent's bin name and the subcommand's names:
+    [Usage::get_required_usage_from(&[], None, true)] of the PARENT, unless SubcommandsNegateReqs /
+    ArgsNegateSubcommands.  The requirement graph and its unrolling are the shared ones ([Validator.required_graph],
+    C12's [UsageModel.unrolled_reqs] = [unroll_arg_requires] with the matcher-free predicate); the two texts per
+    argument are parameters ([Arg::stylized(Some(true))], the member text of [format_group]: C12 models them
+    byte-exactly on its help records, the parser's [arg] record has no value names).  The example below was
+    replayed on the real crate: `Usage: prog --req <req> <file> sub [COMMAND]`. *)
+Section Mid.
+(** per-argument texts: [Arg::stylized(styles, Some(true)).to_string()] and the member text of
+    [Command::format_group] ([name_no_brackets] for a positional, [Display] otherwise) *)
+Variables (sty mem : arg -> bytes).
+
+(** [FlatSet<StyledStr>::insert] *)
+Definition fs_insert (x : bytes) (l : list bytes) : list bytes := if existsb (beq x) l then l else l ++ [x].
+(** [Command::format_group] *)
+Definition format_group_p (p : cmd) (g : id) : option bytes :=
+  match unroll_args_in_group p g with
+  | None => None
+  | Some ms => Some ([60] ++ intercalate [124] (map mem (Cmd.filter_map (find_arg p) ms)) ++ [62])
+  end.
+(** second loop of [get_required_usage_from(&[], None, true)]: required groups and their members *)
+Fixpoint gru_groups (p : cmd) (reqs : list id) (groups : list bytes) (members : list id)
+  : option (list bytes * list id) :=
+  match reqs with
+  | [] => Some (groups, members)
+  | req :: t =>
+      if is_some (find_group p req) then
+        match unroll_args_in_group p req, format_group_p p req with
+        | Some gm, Some elem => gru_groups p t (fs_insert elem groups) (UsageModel.idset_extend gm members)
+        | _, _ => None
+        end
+      else if is_some (find_arg p req) then gru_groups p t groups members
+      else None                                     (* debug_assert!(self.cmd.find(req).is_some()) *)
+  end.
+(** third loop: the required arguments outside the listed groups; [incl_last] = true, no matcher *)
+Fixpoint gru_split (p : cmd) (members : list id) (reqs : list id) (opts : list bytes) (poss : list (option bytes))
+  : option (list bytes * list (option bytes)) :=
+  match reqs with
+  | [] => Some (opts, poss)
+  | req :: t =>
+      match find_arg p req with
+      | Some a =>
+          if mem_id (a_id a) members then gru_split p members t opts poss else
+          match a_index a with
+          | Some i => gru_split p members t opts (UsageModel.vec_set (N.to_nat i) (sty a) poss)
+          | None => gru_split p members t (fs_insert (sty a) opts) poss
+          end
+      | None => if is_some (find_group p req) then gru_split p members t opts poss
+                else None                            (* debug_assert!(self.cmd.find_group(req).is_some()) *)
+      end
+  end.
+(** [Usage::get_required_usage_from(&[], None, true)]; [None] = a panic site of the usage code (C12) *)
+Definition required_usage (p : cmd) : option (list bytes) :=
+  match UsageModel.unrolled_reqs p (required_graph p) with
+  | None => None
+  | Some reqs =>
+      match gru_groups p reqs [] [] with
+      | None => None
+      | Some gm =>
+          match gru_split p (snd gm) reqs [] [] with
+          | None => None
+          | Some sp => Some (fst sp ++ fst gm ++ UsageModel.vec_flatten (snd sp))
+          end
+      end
+  end.
+(** [mid_string] of [_build_subcommand] / [_build_bin_names_internal] *)
+Definition mid_string (p : cmd) : bytes :=
+  if negb (is_set s_subs_negate_reqs p) && negb (is_set s_args_negate_subs p)
+  then match required_usage p with
+       | Some reqs => [32] ++ concat (map (fun s => s ++ [32]) reqs)
+       | None => [32]
+       end
+  else [32].
+
+(** it is rendered from the parent's OWN definition: arguments, groups, two settings *)
+Section Own.
+Variables p p' : cmd.
+Hypothesis Hargs : c_args p' = c_args p.
+Hypothesis Hgroups : c_groups p' = c_groups p.
+Hypothesis H1 : is_set s_subs_negate_reqs p' = is_set s_subs_negate_reqs p.
+Hypothesis H2 : is_set s_args_negate_subs p' = is_set s_args_negate_subs p.
+Lemma own_find_arg i : find_arg p' i = find_arg p i. Proof. unfold find_arg. rewrite Hargs. reflexivity. Qed.
+Lemma own_find_group i : find_group p' i = find_group p i. Proof. unfold find_group. rewrite Hgroups. reflexivity. Qed.
+Lemma own_unrolled_reqs : forall g, UsageModel.unrolled_reqs p' g = UsageModel.unrolled_reqs p g.
+Proof.
+  induction g as [|a t IH]; [reflexivity|]. cbn [UsageModel.unrolled_reqs].
+  rewrite (v_unroll_arg_requires p p' Hargs), IH. reflexivity.
+Qed.
+Lemma own_format_group g : format_group_p p' g = format_group_p p g.
+Proof.
+  unfold format_group_p. rewrite (v_unroll_args_in_group p p' Hargs Hgroups).
+  destruct (unroll_args_in_group p g) as [ms|]; [|reflexivity].
+  assert (E : Cmd.filter_map (find_arg p') ms = Cmd.filter_map (find_arg p) ms).
+  { induction ms as [|m t IH]; [reflexivity|]. cbn [Cmd.filter_map]. rewrite own_find_arg, IH. reflexivity. }
+  rewrite E. reflexivity.
+Qed.
+Lemma own_gru_groups : forall reqs groups members, gru_groups p' reqs groups members = gru_groups p reqs groups members.
+Proof.
+  induction reqs as [|r t IH]; intros groups members; [reflexivity|]. cbn [gru_groups].
+  rewrite own_find_group, own_find_arg, (v_unroll_args_in_group p p' Hargs Hgroups), own_format_group.
+  destruct (is_some (find_group p r)).
+  - destruct (unroll_args_in_group p r); [|reflexivity]. destruct (format_group_p p r); [apply IH|reflexivity].
+  - destruct (is_some (find_arg p r)); [apply IH|reflexivity].
+Qed.
+Lemma own_gru_split members : forall reqs opts poss, gru_split p' members reqs opts poss = gru_split p members reqs opts poss.
+Proof.
+  induction reqs as [|r t IH]; intros opts poss; [reflexivity|]. cbn [gru_split].
+  rewrite own_find_arg, own_find_group. destruct (find_arg p r) as [a|].
+  - destruct (mem_id (a_id a) members); [apply IH|]. destruct (a_index a); apply IH.
+  - destruct (is_some (find_group p r)); [apply IH|reflexivity].
+Qed.
+Lemma own_mid_string : mid_string p' = mid_string p.
+Proof.
+  unfold mid_string, required_usage. rewrite H1, H2.
+  replace (required_graph p') with (required_graph p) by (unfold required_graph; rewrite Hargs, Hgroups; reflexivity).
+  rewrite own_unrolled_reqs.
+  destruct (UsageModel.unrolled_reqs p (required_graph p)) as [reqs|]; [|reflexivity].
+  rewrite own_gru_groups. destruct (gru_groups p reqs [] []) as [gm|]; [|reflexivity].
+  rewrite own_gru_split. reflexivity.
+Qed.
+End Own.
+Corollary mid_string_rs p l : mid_string (rs p l) = mid_string p.
+Proof. apply own_mid_string; reflexivity. Qed.
+Corollary mid_string_rsm p l v v' : mid_string (rsm p l v v') = mid_string p.
+Proof. apply own_mid_string; reflexivity. Qed.
+
+(** the usage_name [_build_subcommand] stores, with the real [mid] *)
+Definition real_usage_name (p k : cmd) : bytes :=
+  match c_bin_name p with
+  | Some b => b ++ mid_string p ++ sc_names k
+  | None => sc_names k
+  end.
+Lemma usage_name_at_real p k : usage_name_at mid_string p k = real_usage_name p k.
+Proof. unfold usage_name_at, real_usage_name. rewrite mid_string_rs. reflexivity. Qed.
+
+Theorem history_messages_real : forall h b c argv,
+  good_name b = true -> xhist_ok b c h = true ->
+  argv_under b (xrun c h) argv = true -> argv_under b c argv = true ->
+  parse_lines mid_string (xrun c h) argv = parse_lines mid_string c argv
+  /\ err_of (fst (fst (parse_mut (xrun c h) argv))) = err_of (fst (fst (parse_mut c argv))).
+Proof. intros h. apply history_messages. Qed.
+End Mid.
+
+(** * non-vacuity: a root with a required option and a required positional; the usage head of `sub` shows them *)
+Definition w_req : bytes := [114; 101; 113].
+Definition w_file : bytes := [102; 105; 108; 101].
+Definition ex_req : arg := (arg_new w_req) <| a_long := Some w_req |> <| a_required := true |> <| a_num := Some r_single |>.
+Definition ex_file : arg := (arg_new w_file) <| a_required := true |> <| a_num := Some r_single |>.
+Definition ex_rcmd : cmd := ex_cmd <| c_args := [ex_req; ex_file] |>.
+Definition ex_sty (a : arg) : bytes :=
+  match a_long a with Some l => [45; 45] ++ l ++ [32; 60] ++ a_id a ++ [62] | None => [60] ++ a_id a ++ [62] end.
+Definition ex_rhist : list xop :=
+  [XParse true [ex_prog; [45; 45; 122; 122; 122]]; XOp RenderUsage; XParse false [ex_prog; ex_sub; ex_run]].
+Example ex_real_usage_heads :
+  map ln_usage_head (parse_lines (mid_string ex_sty a_id) (xrun ex_rcmd ex_rhist) [ex_prog; ex_sub; ex_run; [45; 45; 98]])
+  = [ex_prog;
+     ex_prog ++ [32] ++ [45; 45] ++ w_req ++ [32; 60] ++ w_req ++ [62; 32; 60] ++ w_file ++ [62; 32] ++ ex_sub;
+     ex_prog ++ [32] ++ ex_sub ++ [32] ++ ex_run]
+  /\ xhist_ok ex_prog ex_rcmd ex_rhist = true /\ good_name ex_prog = true.
 Proof. vm_compute. repeat split; reflexivity. Qed.
